@@ -289,6 +289,8 @@ func Run(rng *hlib.Rng, rep *hlib.Report, n int, tier string, budget time.Durati
 	rep.Distribution["dec:corpus-cases"] = s.nextID - 1_000_000
 	rep.Note(fmt.Sprintf("decoder corpus: %d cases in %.1fs", s.nextID-1_000_000, time.Since(s.start).Seconds()))
 	before := s.nextID
+	// the random part gets its own slice of time even when the corpus was slow
+	s.start, s.budget = time.Now(), budget/2
 	s.random(rng, n)
 	rep.Distribution["dec:random-cases"] = s.nextID - before
 	Warnings = s.Warnings
